@@ -181,7 +181,7 @@ func init() {
 	props["C40"].Race = true
 	props["C40"].Quick, props["C40"].Thorough = 1500, 100000
 	props["C40"].QuickS, props["C40"].ThorS = 150, 1800
-	props["C40"].Also = []string{"w2", "w3"}
+	props["C40"].Also = []string{"w2", "w3", "w7"}
 	props["C38"].Also = []string{"w6"}
 	props["C38"].Real = append(props["C38"].Real, "40% of the runs: world w6 (the watcher inside the real Core: file rewrites 0 ms..2.5 s apart, the configuration in force 5 s after the last write must be the file's; conf.Load, Core.run, reloadConf real; socket-owning components are recording stand-ins)")
 	props["C38"].LevelNote = strings.Replace(props["C38"].LevelNote, "Core's reaction is modelled by the consumer (level 2, the watcher inside Core, is not built)", "in world w2a Core's reaction is modelled by the consumer; level 2, the watcher inside the real Core, runs in world w6 with complete (never torn) file contents", 1)
@@ -192,8 +192,8 @@ func init() {
 	props["C20"].Real = append(props["C20"].Real, "40% of the runs: world w7 (real RTMP connections: runOnConnect/runOnDisconnect per connection and runOnRead/runOnUnread per reading connection, observed where the hook closures announce themselves; every announced command must have been executed when the server has shut down)")
 	props["C20"].LevelNote = strings.Replace(props["C20"].LevelNote, "the per-protocol session code is not covered", "runOnRead/runOnUnread and runOnConnect/runOnDisconnect are decided across real RTMP connections (w7) only; RTSP, SRT, WebRTC, MoQ sessions are not covered", 1)
 	props["C03"].Real = append(props["C03"].Real, "40% of the runs: world w5 (real HLS server: the session code that turns an HTTP request into a reader of a path, judged against the recorded decisions of the authentication manager)")
-	props["C40"].Real = append(props["C40"].Real, "20% of the runs each: world w2 (real Core with concurrent API configuration edits and reads, path manager, configuration watcher, record cleaner) and world w3 (recorder, playback list/get handlers with their parsing goroutines, record store), both built with the race detector")
-	props["C40"].LevelNote += "; metrics scrapes over HTTP and real session kick paths are outside (front-ends are stubs); data races are those the Go race detector reports under the explored schedules"
+	props["C40"].Real = append(props["C40"].Real, "13% of the runs each: world w2 (real Core with concurrent API configuration edits and reads, path manager, configuration watcher, record cleaner), world w3 (recorder, playback list/get handlers with their parsing goroutines, record store) and world w7 (real RTMP server with real gortmplib clients publishing and reading, API list and kick of live connections, shutdown with connections open), all built with the race detector")
+	props["C40"].LevelNote += "; metrics scrapes over HTTP are outside; of the real session kick paths only RTMP's is exercised (w7), the other front-ends are stubs; data races are those the Go race detector reports under the explored schedules"
 }
 
 // ---------------------------------------------------------------------------
